@@ -274,6 +274,9 @@ def _tree_case(arg):
                 return m
         return None
 
+    import c17_pure
+    dumps0 = [c17_pure.dump(it[1]) for it in items]
+    mod0 = c17_pure.module_state()
     for name, obj, pj, want, tnode, tfst in items:
         sub = tree if tnode is a else _subtree(tree, ids[id(tnode)])
         got = run(obj, tfst, ids)
@@ -298,6 +301,14 @@ def _tree_case(arg):
         again = run(obj, tfst, ids)
         if again != res['items'][i]['real']:
             res['stateless'].append({'name': name, 'first': res['items'][i]['real'], 'again': again})
+    res['mutated'] = []
+    for it, d0 in zip(items, dumps0):
+        d = c17_pure.first_diff(d0, c17_pure.dump(it[1]))
+        if d:
+            res['mutated'].append({'name': it[0], 'diff': d})
+    d = c17_pure.first_diff(mod0, c17_pure.module_state())
+    if d:
+        res['mutated'].append({'name': 'module:shared-container', 'diff': d})
     return res
 
 
@@ -505,9 +516,11 @@ def _search_case(arg):
     kinds = {ids[id(g.a)]: g.a.__class__ for g in root.walk(True)}
     walk = list(root.walk(True))
     B = bases(ser)
+    import c17_pure
     for spec in gen_specs(B, rng, 10 if quick else 25, 25 if quick else 60):
         name = spec_name(spec)
         real, js, flags = build(spec, B)
+        d0 = c17_pure.dump(real)
         try:
             found, want = _run_search(root, ids, walk, real)
         except Exception as e:      # noqa: BLE001
@@ -516,6 +529,9 @@ def _search_case(arg):
         missing = [x for x in want if x not in found]
         item = {'name': name, 'spec': spec, 'found': found, 'want': want, 'src': src, 'leaf': real_leaf(real, ser),
                 'ctxinst': 'ctxinst' in flags, 'missing_all_ctx': all(issubclass(kinds[x], ast.expr_context) for x in missing)}
+        d = c17_pure.first_diff(d0, c17_pure.dump(real))
+        if d:
+            item['mutated'] = d
         if js:
             item['case'] = {'f': 'C17.search', 'p': js, 't': tree}
         out.append(item)
@@ -625,6 +641,9 @@ def sweep(ctx):
                 if v != real:
                     ctx.fail(f'C17|structural|{what}|differs-on-{k}', f'{nm} on {it["node"]}: formatted tree gives {real}, {k} gives {v}',
                              {'kind': 'tree', 'src': r['src'], 'item': nm})
+        for mu in r.get('mutated', []):
+            ctx.fail(f'C17|pattern-purity|{mu["name"].split(":")[-1]}|pattern-object-mutated',
+                     f'{mu["name"]}: a match call changed the pattern object: {mu["diff"]}', {'kind': 'tree', 'src': r['src'], 'item': mu['name']})
         for s in r['stateless']:
             ctx.fail(f'C17|statelessness|{s["name"].split(":")[-1]}|result-depends-on-call-history',
                      f'{s["name"]}: first call {s["first"]}, later call {s["again"]}', {'kind': 'tree', 'src': r['src'], 'item': s['name']})
@@ -638,6 +657,10 @@ def sweep(ctx):
                      {'kind': 'search', 'src': it['src'], 'spec': it['spec'], 'pattern': it['name']})
             continue
         ctx.tally('search_pattern', _top(it['name']))
+        if it.get('mutated'):
+            ctx.fail(f'C17|pattern-purity|search-{_top(it["name"])}|pattern-object-mutated',
+                     f'search({it["name"]}) changed the pattern object: {it["mutated"]}',
+                     {'kind': 'search', 'src': it['src'], 'spec': it['spec'], 'pattern': it['name']})
         if it['found'] == it['want']:
             continue
         missing = [x for x in it['want'] if x not in it['found']]
@@ -662,6 +685,53 @@ def sweep(ctx):
                      {'kind': 'search', 'src': it['src'], 'spec': it['spec'], 'pattern': it['name']})
     ctx.notes['search_failures_by_signature'] = seen
     _unsound_table_entries(ctx)
+    _nfkc(ctx)
+
+
+NFKC_CASES = [
+    ('Global', 'def f():\n    global \u210c, a\n'),
+    ('Nonlocal', 'def f():\n    \u210c = 1\n    def g():\n        nonlocal \u210c\n'),
+    ('Name', '\u210c = \ufb01'),
+    ('arg', 'def f(\u210c, *\ufb01, **\u00b5): pass'),
+    ('Attribute', 'a.\u210c'),
+    ('FunctionDef', 'def \u210c(): pass'),
+    ('ClassDef', 'class \u210c: pass'),
+    ('alias', 'import \u210c as \ufb01'),
+    ('ImportFrom', 'from \u210c import \ufb01'),
+    ('keyword', 'f(\u210c=1)'),
+    ('MatchClass', 'match x:\n    case C(\u210c=1): pass\n'),
+    ('MatchAs', 'match x:\n    case \u210c: pass\n'),
+    ('MatchStar', 'match x:\n    case [*\u210c]: pass\n'),
+    ('MatchMapping', 'match x:\n    case {**\u210c}: pass\n'),
+    ('ExceptHandler', 'try: pass\nexcept E as \u210c: pass\n'),
+    ('TypeVar', 'type T[\u210c] = int'),
+]
+
+
+def _nfkc_check(kind, src):
+    """an identifier that CPython NFKC-normalises: the tree must still match the pattern built from its own AST,
+    formatted and pure alike -> failure class or None"""
+    from fst import FST
+    from fst.match import M
+    pat = ast.parse(src)
+    if M(pat).match(ast.parse(src)) is None:
+        return 'own-pattern-rejected-pure-ast'
+    if FST(src, 'exec').match(pat) is None:
+        return 'own-pattern-rejected'
+    return None
+
+
+def _nfkc(ctx):
+    for kind, src in NFKC_CASES:
+        ctx.count(('nfkc', kind))
+        try:
+            cls = _nfkc_check(kind, src)
+        except Exception as e:      # noqa: BLE001
+            cls = 'raised-' + type(e).__name__
+        if cls:
+            ctx.fail(f'C17|structural|nfkc-identifier-{kind}|{cls}',
+                     f'{kind} with an identifier that CPython normalises (NFKC): FST(src).match(ast.parse(src)) fails ({cls}) for {src!r}',
+                     {'kind': 'nfkc', 'node': kind, 'src': src})
 
 
 def _unsound_table_entries(ctx):
@@ -691,6 +761,11 @@ def search(ctx):
 def replay(ctx, w):
     from fst import FST
     kind = w.get('kind')
+    if kind == 'nfkc':
+        cls = _nfkc_check(w['node'], w['src'])
+        if cls:
+            ctx.fail('replay', f'{w["node"]}: {cls} for {w["src"]!r}', w)
+        return
     if kind == 'leaf-table':
         _unsound_table_entries(ctx)
         return
